@@ -1193,6 +1193,12 @@ class Interp:
                                              'property has no setter')
                 self.call(member.fset.bind(base), [v])
                 return
+            if isinstance(member, Obj) and member.cls is not None:
+                # a data descriptor of a repo class
+                setter, _o = member.cls.lookup('__set__')
+                if isinstance(setter, FuncRef):
+                    self.call(setter.bind(member), [base, v])
+                    return
         if isinstance(base, Obj):
             base.fields[name] = v
             self.effect('write', base.label, name, self.termify(v))
@@ -1901,6 +1907,9 @@ class Interp:
                     return v.func.bind(base)
                 if isinstance(v, StaticV):
                     return v.func
+                if isinstance(v, Obj) and v.cls is not None and isinstance(
+                        v.cls.lookup('__get__')[0], FuncRef):
+                    return self.bind_member(v, None, base)
                 return v
             if base.nt_base() is not None:
                 r = self.ntclass_attr(base.nt_base(), base, name)
@@ -1940,6 +1949,12 @@ class Interp:
             return v.func
         if isinstance(v, ClassMethodV):
             return v.func.bind(cls)
+        if isinstance(v, Obj) and v.cls is not None:
+            # the descriptor protocol of a repo class
+            getter, _o = v.cls.lookup('__get__')
+            if isinstance(getter, FuncRef):
+                return self.call(getter.bind(v), [
+                    obj if obj is not None else K(None), cls])
         return v
 
     def ex_Call(self, e, fr):
